@@ -1,7 +1,10 @@
 package c04
 
 import (
+	"math"
+	"strconv"
 	"strings"
+	"sync"
 
 	om "verif/ref/objmodel"
 )
@@ -44,7 +47,22 @@ func (w *mworld) naturalProto(name string) *om.Object {
 	if p, ok := w.natural[name]; ok {
 		return p
 	}
-	p := om.NewObject(name, nil) // opaque: the pool keys are checked to be absent from it (and its chain) at set-up
+	// Only the properties that pool keys can reach are modelled; explore checks at set-up that model and real
+	// built-in agree on `key in proto` for every key of the search.
+	p := om.NewObject(name, nil)
+	switch name {
+	case "FunctionProto":
+		p.Put(om.StrKey("length"), om.DataProp(om.Num(0), false, false, true))
+		p.Put(om.StrKey("name"), om.DataProp(om.Str(""), false, false, true))
+		tte := om.ObjV(w.throwTypeError)
+		p.Put(om.StrKey("caller"), om.AccessorProp(tte, tte, false, true))
+		p.Put(om.StrKey("arguments"), om.AccessorProp(tte, tte, false, true))
+	case "ArrayProto":
+		p.Put(om.StrKey("length"), om.DataProp(om.Num(0), true, false, false))
+		p.Put(om.SymKey(w.syms["iterator"]), om.DataProp(om.ObjV(w.arrayValues), true, false, true))
+	case "StringProto":
+		p.Put(om.StrKey("length"), om.DataProp(om.Num(0), false, false, false))
+	}
 	w.natural[name] = p
 	return p
 }
@@ -103,6 +121,11 @@ type kindSpec struct {
 	Natural string // name of the built-in prototype
 	Build   func(w *mworld, proto *om.Object) *om.Object
 	Class   string // family used in signatures
+	// Adopt: a built-in object with dozens of properties (Math, the global object). Its initial model state is
+	// read off an untouched real instance (see adoptedState); what is checked is every transition from there,
+	// in particular the first touch of the lazily materialised template by every operation. Such kinds use a
+	// fresh runtime for every transition.
+	Adopt bool
 }
 
 func dataP(v om.Value, w, e, c bool) om.Prop { return om.DataProp(v, w, e, c) }
@@ -179,6 +202,8 @@ var kindSpecs = map[string]*kindSpec{
 		o.Put(om.StrKey("callee"), om.AccessorProp(om.ObjV(w.throwTypeError), om.ObjV(w.throwTypeError), false, false))
 		return o
 	}},
+	"math":   {Name: "math", Natural: "ObjectProto", Class: "templated", Adopt: true, Build: buildAdopted("math")},
+	"global": {Name: "global", Natural: "ObjectProto", Class: "global", Adopt: true, Build: buildAdopted("global")},
 	"u8":  {Name: "u8", Natural: "Uint8ArrayProto", Class: "typedarray", Build: func(w *mworld, p *om.Object) *om.Object { return om.NewTypedArray("o", p, om.ElemUint8, 2) }},
 	"u8e": {Name: "u8e", Natural: "Uint8ArrayProto", Class: "typedarray", Build: func(w *mworld, p *om.Object) *om.Object { return om.NewTypedArray("o", p, om.ElemUint8, 0) }},
 	"u8c": {Name: "u8c", Natural: "Uint8ClampedArrayProto", Class: "typedarray", Build: func(w *mworld, p *om.Object) *om.Object {
@@ -190,13 +215,14 @@ var kindSpecs = map[string]*kindSpec{
 // newModelWorld mirrors H.mk(kind, variant, keys).
 func newModelWorld(kind *kindSpec, variant string, chainKeys []int) *mworld {
 	w := &mworld{syms: map[string]*om.Symbol{}, natural: map[string]*om.Object{}}
-	for _, n := range []string{"s1", "s2", "toPrimitive", "iterator"} {
+	for _, n := range []string{"s1", "s2", "toPrimitive", "iterator", "toStringTag"} {
 		w.syms[n] = &om.Symbol{Name: n}
 	}
 	w.f, w.g = w.fn("f", true, "rf"), w.fn("g", true, "rg")
 	w.sf, w.sg = w.fn("sf", false, ""), w.fn("sg", false, "")
 	w.bindP, w.bindQ = &om.Binding{V: om.Undefined}, &om.Binding{V: om.Undefined}
 	w.throwTypeError = om.NewObject("ThrowTypeError", nil)
+	w.throwTypeError.Call = func(this om.Value, args []om.Value) (om.Value, *om.Throw) { return om.Undefined, om.TypeError() }
 	w.arrayValues = om.NewObject("ArrayProto_values", nil)
 	grand := om.NewObject("grand", nil)
 	parent := om.NewObject("parent", grand)
@@ -539,4 +565,91 @@ func (w *mworld) observe(o *om.Object) string {
 	}
 	sb.WriteString(" go{N[" + strings.Join(names, ",") + "] E[" + strings.Join(enum, ",") + "] S[" + strings.Join(syms, ",") + "] p" + proto + "}")
 	return sb.String()
+}
+
+var adoptedMu sync.Mutex
+var adopted = map[string]objState{}
+
+// adoptedState observes an untouched instance of a built-in kind on a pristine runtime (once per process).
+func adoptedState(kind string) objState {
+	adoptedMu.Lock()
+	defer adoptedMu.Unlock()
+	if st, ok := adopted[kind]; ok {
+		return st
+	}
+	h := newHarness()
+	w := h.newWorld(kind, "natural", nil)
+	st := parseDump(w.dump())[0]
+	adopted[kind] = st
+	return st
+}
+
+// parseValue turns a rendered value back into a model value; objects become fresh model objects carrying
+// the rendered name (built-in functions all render as ?function; they are distinct objects).
+func (w *mworld) parseValue(s string) om.Value {
+	switch {
+	case s == "undefined":
+		return om.Undefined
+	case s == "null":
+		return om.Null
+	case s == "true", s == "false":
+		return om.Bool(s == "true")
+	case s == "-0":
+		return om.Num(math.Copysign(0, -1))
+	case strings.HasPrefix(s, "\""):
+		if u, err := strconv.Unquote(s); err == nil {
+			return om.Str(u)
+		}
+		return om.Str(s)
+	case strings.HasPrefix(s, "@"):
+		if y := w.syms[s[1:]]; y != nil {
+			return om.SymV(y)
+		}
+		y := &om.Symbol{Name: s[1:]}
+		w.syms[s[1:]] = y
+		return om.SymV(y)
+	case strings.HasPrefix(s, "#"):
+		switch s[1:] {
+		case "f":
+			return om.ObjV(w.f)
+		case "g":
+			return om.ObjV(w.g)
+		case "sf":
+			return om.ObjV(w.sf)
+		case "sg":
+			return om.ObjV(w.sg)
+		}
+		return om.ObjV(om.NewObject(s[1:], nil))
+	}
+	return om.Num(om.StringToNumber(s))
+}
+
+func buildAdopted(kind string) func(w *mworld, proto *om.Object) *om.Object {
+	return func(w *mworld, proto *om.Object) *om.Object {
+		st := adoptedState(kind)
+		o := om.NewObject("o", proto)
+		o.Ext = st.Ext
+		for _, k := range st.Keys {
+			p := parseProp(st.Props[k])
+			var key om.Key
+			if strings.HasPrefix(k, "@") {
+				if w.syms[k[1:]] == nil {
+					w.syms[k[1:]] = &om.Symbol{Name: k[1:]}
+				}
+				key = om.SymKey(w.syms[k[1:]])
+			} else {
+				key = om.StrKey(k)
+			}
+			if p.acc {
+				o.Put(key, om.AccessorProp(w.parseValue(p.a), w.parseValue(p.b), p.e, p.c))
+			} else {
+				v := w.parseValue(p.a)
+				if p.a == "#o" {
+					v = om.ObjV(o) // globalThis.globalThis
+				}
+				o.Put(key, om.DataProp(v, p.w, p.e, p.c))
+			}
+		}
+		return o
+	}
 }
